@@ -62,7 +62,7 @@ CHECKS = {
         "argument position differs from the rebinding port) on circuits of width 1-6: `tracked` must equal the model after every step, "
         "IndexError must be raised exactly for untracked indices, and the resulting HUGR must equal the explicitly wired one incl. metadata. "
         "Whole command groups go through ONE extend(...) call, Command objects are added a second time, track_inputs is also left to its default, "
-        "Node handles are used as wires.",
+        "Node handles are used as wires, indices also stand at positions where the op has no output.",
         "Trusted: the 30-line tracking model in vf/props/c15.py. Negative indices not exercised.",
         "DESIGN.md §3 C15",
     ),
@@ -83,7 +83,8 @@ CHECKS = {
         "other schema file may exist. Supporting: hundreds (quick) / thousands (thorough) of emitted HUGR/package/extension documents and "
         "mutations (required-key deletion incl. every top-level key systematically, unknown keys, unknown tags, wrong containers; also documents of the testing model) must get the same verdict from jsonschema under the "
         "published file and from pydantic under the same configuration. The keys every compiled model validator reads (validation aliases included) "
-        "and the tags its unions dispatch on are compared with the published definitions (what schema emission does not show).",
+        "and the tags its unions dispatch on are compared with the published definitions (what schema emission does not show); fields the validators leave "
+        "unconstrained are filled with arbitrary JSON, which both sides must accept.",
         "Trusted: pydantic's schema emission describing its own validation (sampled by the differential, one open known finding about strict "
         "rebuilds); jsonschema Draft 2020-12. 'For all documents' is decided by structural identity, not by sampling.",
         "DESIGN.md §3 C17",
